@@ -14,7 +14,7 @@ ENGINES = [
     {'name': 'rapid-lib', 'path': 'harness/lib', 'kind_free_text': 'rapid property tests on the exported fzf.ParseOptions + fzf.Run API (whole filter pipeline in-process)',
      'serves_properties': ['C01', 'C04', 'C05', 'C06', 'C07', 'C11']},
     {'name': 'rapid-proc', 'path': 'harness/proc', 'kind_free_text': 'rapid state machines driving the real fzf binary in a private tmux server through --listen, send-keys and resize',
-     'serves_properties': ['C06', 'C07', 'C08', 'C09', 'C10', 'C11', 'C12', 'C13', 'C14', 'C15', 'C16', 'C17', 'C18', 'C19', 'C20']},
+     'serves_properties': ['C02', 'C06', 'C07', 'C08', 'C09', 'C10', 'C11', 'C12', 'C13', 'C14', 'C15', 'C16', 'C17', 'C18', 'C19', 'C20']},
     {'name': 'go-fuzz', 'path': 'harness/inpkg', 'kind_free_text': 'native go test -fuzz targets (thorough tier only) compiled into the fzf packages with coverage instrumentation: byte-level targets with the oracle inside (ANSI stripping, HTTP request handling, option parsing, field splitting) and rapid.MakeFuzz wrappers of the rapid properties',
      'serves_properties': ['C02', 'C03', 'C05', 'C10', 'C11', 'C12', 'C16', 'C17', 'C18']},
     {'name': 'oracle', 'path': 'harness/oracle', 'kind_free_text': 'independent reference models (no fzf import): scoring DP, alignment enumerator, query grammar evaluator, record/field splitters, ANSI/SGR interpreter, readline/selection model, history model, walk model',
